@@ -83,6 +83,12 @@ static int run(const std::string &ob, const Args &a)
     if (!build(a, "M", NR, p, j, x)) { std::cout << "no matrix in the counterexample\n"; return 2; }
     CSRMatrix M(NR, NC, p, j, x); show(M, "M");
     Dense D = dense_of(M);
+    if (ob.find("conjugate") != std::string::npos || ob.find("CSRMatrix.ctor") != std::string::npos) {
+        CSRMatrix R; M.conjugate(R); show(R, "conjugate");
+        if (R.nrows() != NR || R.ncols() != NC) { std::cout << "REPRODUCED: the conjugate of a " << NR << "x" << NC << " matrix is reported as " << R.nrows() << "x" << R.ncols() << "\n"; return 1; }
+        if (!canon(R, "conjugate") || !same(dense_of(R), D, "conjugate (real entries)")) return 1;
+        return 0;
+    }
     if (ob.find("csr_diagonal") != std::string::npos) {
         unsigned N = std::min(NR, NC); DenseMatrix Dg(N, 1);
         csr_diagonal(M, Dg);
